@@ -508,14 +508,14 @@ def _order(recs):
     return sorted(recs, key=lambda r: hashlib.sha256(tkey(r["t"]).encode()).digest())
 
 
-def gen_pool(ctx, sample_d2=220, sample_d3=110, tlc_seed=9):
+def gen_pool(ctx, sample_d2=220, sample_d3=110, tlc_seed=9, quick_parts=16):
     """Replay records (one per type tree) from MC_AbiCodec under Gen_AbiCodec.cfg.
     thorough: 4 slices of the depth<=1 trees in parallel TLC runs (+ named nestings + fixed-seed deeper samples);
-    quick: slice VERIF_SEED mod 16 + named nestings."""
+    quick: slice VERIF_SEED mod quick_parts (of quick_parts) + named nestings."""
     from concurrent.futures import ThreadPoolExecutor
     from lib.common import ToolError
     if ctx.quick:
-        jobs = [dict(Part=ctx.seed % 16, NParts=16, SampleD2=0, SampleD3=0, WithNamed="TRUE")]
+        jobs = [dict(Part=ctx.seed % quick_parts, NParts=quick_parts, SampleD2=0, SampleD3=0, WithNamed="TRUE")]
     else:
         jobs = [dict(Part=0, NParts=4, SampleD2=sample_d2, SampleD3=0, WithNamed="TRUE"),
                 dict(Part=1, NParts=4, SampleD2=0, SampleD3=sample_d3, WithNamed="FALSE"),
